@@ -80,6 +80,11 @@ POOL = [
     T("SELECT a FROM t", "tableau", "duckdb"),
     T("SELECT a FROM t", "solr", "duckdb"),
     T("from x", "prql", "duckdb"),
+    # steady-state (not first-use) hazards: constructs whose parsing temporarily edits class-level parser tables
+    T("SELECT a FROM t START WITH a = 1 CONNECT BY PRIOR a = b", "oracle", "snowflake"),
+    T("SELECT a FROM t START WITH a = 1 CONNECT BY PRIOR a = b AND PRIOR c = d", "snowflake", "oracle"),
+    T("SELECT prior, level FROM t WHERE prior > 1", "postgres", "duckdb"),
+    T("SELECT prior FROM t", "snowflake", "snowflake"),
     {"op": "tokenize", "sql": "SELECT $$abc$$, e'x\\n', \"q\" FROM t -- c", "read": "postgres"},
     {"op": "tokenize", "sql": "SELECT `a`, r'raw', b'x' FROM `p.d.t`", "read": "bigquery"},
     {"op": "tokenize", "sql": "SELECT [a], N'x' FROM t", "read": "tsql"},
@@ -113,6 +118,7 @@ POOL = [
 ]
 
 FAMILIES = [
+    ["oracle", "snowflake", "postgres"],
     ["hive", "spark2", "spark", "databricks"],
     ["mysql", "doris", "starrocks", "singlestore"],
     ["presto", "trino", "athena", "dune"],
@@ -213,11 +219,15 @@ def generate(prop, run_seed, tier):
         k = rng.choice([1, 1, 2, 2, 3] if tier == "quick" else [1, 2, 2, 3, 4])
         scripts.append([copy.deepcopy(hot[rng.randrange(len(hot))] if rng.random() < 0.85 else POOL[rng.randrange(len(POOL))]) for _ in range(k)])
     strat = rng.choice(["random", "random", "random", "pct", "pct", "cold", "cold", "cold", "serial"])
+    warm = rng.random() < 0.4
+    if warm:
+        strat = rng.choice(["random", "random", "random", "pct"])
     cfg = {
+        "warm": warm,
         "hashseed": rng.choice(HASHSEEDS[tier]),
         "strategy": strat,
         "sched_seed": rng.getrandbits(48),
-        "mean_gap": rng.choice([30, 300, 3000, 30000, 300000]) if strat == "random" else rng.choice([30000, 300000, 3000000]),
+        "mean_gap": (rng.choice([3, 10, 30, 100, 300, 1000]) if warm else rng.choice([30, 300, 3000, 30000, 300000])) if strat == "random" else rng.choice([30000, 300000, 3000000]),
         "pct_depth": rng.choice([1, 2, 3]),
         "p_cold": rng.choice([0.02, 0.1, 0.3]) if strat == "cold" else 0.0,
         "gc_rate": rng.choice([0.0, 0.0, 0.05]),
@@ -329,7 +339,7 @@ def execute(record, state):
         "steps": r["steps"],
         "faults": faults,
         "probes": probes,
-        "population": "serial" if cfg.get("strategy") == "serial" and record.get("schedule") is None else "preemptive",
+        "population": ("serial" if cfg.get("strategy") == "serial" and record.get("schedule") is None else "preemptive") + ("-warm" if cfg.get("warm") else "-cold"),
         "situations": sorted(set("%s|%s" % (e[1], e[2]) for e in r["switch_sites"]))[:200],
         "counters": {"threads": len(scripts), "calls": sum(len(s) for s in scripts), "cold_code_objects": r.get("cold_code_objects", 0)},
     }
